@@ -405,7 +405,19 @@ fn run_k_inner(args: &[&str]) -> String {
         .into_iter()
         .zip(progs)
         .enumerate()
-        .map(|(tid, (r, prog))| std::thread::spawn(move || run_program(tid, r, prog)))
+        .map(|(tid, (r, prog))| {
+            std::thread::spawn(move || {
+                // a panic inside an operation must not leave the scheduler waiting for this thread
+                match std::panic::catch_unwind(std::panic::AssertUnwindSafe(|| run_program(tid, r, prog))) {
+                    Ok(v) => v,
+                    Err(_) => {
+                        TID.with(|t| t.set(None));
+                        finished(tid);
+                        vec!["THREAD-PANIC".into()]
+                    }
+                }
+            })
+        })
         .collect();
 
     // the scheduler loop
